@@ -35,12 +35,13 @@ func (prop) Level() string { return "exploration" }
 
 // caseData is the self-contained description of a case.
 type caseData struct {
-	Kind     string            `json:"kind"`           // "gen": N templates generated from Seed; "one": the template in Src
+	Kind     string            `json:"kind"`           // "gen": N templates generated from Seed; "one": the template in Src; "segments": N text segments separated by shows in one function
 	Seed     int64             `json:"seed,omitempty"` // gen
 	N        int               `json:"n,omitempty"`    // gen
 	Ext      string            `json:"ext,omitempty"`  // one
 	Src      []byte            `json:"src,omitempty"`  // one (base64 in JSON: sources hold CR, BOM and odd bytes)
 	SrcText  string            `json:"src_text,omitempty"`
+	InMacro  bool              `json:"in_macro,omitempty"` // segments: the segments are the body of a macro
 	Partials map[string][]byte `json:"partials,omitempty"`
 }
 
@@ -59,6 +60,11 @@ func (prop) Drive(d *core.Driver) error {
 	for i := 0; i*per < total; i++ {
 		cases = append(cases, core.NewCase(fmt.Sprintf("gen-%d", i), caseData{Kind: "gen", Seed: d.Seed*100000 + int64(i), N: per}))
 	}
+	// many literal segments in one function: around the 16-bit text index of the VM
+	for _, n := range []int{65535, 65536, 65537, 65600} {
+		cases = append(cases, core.NewCase(fmt.Sprintf("segments-%d", n), caseData{Kind: "segments", N: n}))
+	}
+	cases = append(cases, core.NewCase("segments-macro-65537", caseData{Kind: "segments", N: 65537, InMacro: true}))
 	for _, s := range fixed {
 		cases = append(cases, core.NewCase("fixed-"+s.name, caseData{Kind: "one", Ext: s.ext, Src: []byte(s.src), SrcText: s.src}))
 	}
@@ -108,6 +114,22 @@ func (prop) Work(c core.Case) core.Result {
 	c.Decode(&cd)
 	t := &tallies{sigs: map[string]struct{}{}, counts: map[string]int64{}}
 	switch cd.Kind {
+	case "segments":
+		var b bytes.Buffer
+		if cd.InMacro {
+			b.WriteString("{% macro M1 %}")
+		}
+		for i := 0; i < cd.N; i++ {
+			fmt.Fprintf(&b, "t%d;{{ 7 }}", i)
+		}
+		if cd.InMacro {
+			b.WriteString("{% end macro %}{{ M1() }}")
+		}
+		t.checkOne(".txt", b.Bytes(), nil)
+		if t.viol != "" {
+			t.viol = core.Truncate(t.viol, 3000)
+			t.violOne = nil
+		}
 	case "one":
 		src := cd.Src
 		if len(src) == 0 {
@@ -131,7 +153,7 @@ func (prop) Work(c core.Case) core.Result {
 		if t.violOne != nil && cd.Kind != "one" {
 			res.Out = core.MustJSON(t.violOne)
 		}
-	} else if t.counts["ran"] == 0 && cd.Kind == "one" {
+	} else if t.counts["ran"] == 0 && cd.Kind != "gen" {
 		res.Status = core.Skip
 		res.Detail = "template did not build or is outside the model"
 	}
@@ -167,6 +189,13 @@ func (t *tallies) checkOne(ext string, src []byte, partials map[string][]byte) {
 		return
 	}
 	if o.BuildErr != "" {
+		if ext == ".txt" && !strings.Contains(o.BuildErr, "exceeded") {
+			// the text format has no contexts that reject a show or a raw block:
+			// every generated construct is documented, the template must build
+			// (a limit of the implementation may be exceeded by the large cases)
+			fail("a text template made of documented constructs only does not build: %s", o.BuildErr)
+			return
+		}
 		t.counts["skipped_build_error"]++
 		t.counts["skipped_build_error"+ext]++
 		return
